@@ -1,11 +1,12 @@
 #!/bin/bash
 # usage: try_mutant.sh <patch.diff> <property> [extra check args]
-# applies the patch to /repo, runs the check, restores /repo whatever happens.
+# Applies the patch to a scratch worktree of /repo HEAD (under /tmp, removed afterwards), points the check's
+# workers at it (VERIF_REPO) and runs the check.  /repo itself is not touched.
 set -u
 patch="$1"; prop="$2"; shift 2
-cd /repo || exit 9
-if [ -n "$(git status --porcelain --untracked-files=no)" ]; then echo "repo dirty, refusing"; exit 9; fi
-git apply "$patch" || { echo "patch does not apply"; exit 9; }
-trap 'git -C /repo checkout -- . ' EXIT
-cd /verif && ./check "$prop" --no-gate "$@" 2>&1 | grep -E "^(VIOLATION|violation|KNOWN|HARNESS|runs=)" | head -8
+wt=/tmp/wt-mut-$$
+git -C /repo worktree add -q --detach "$wt" HEAD || exit 9
+trap 'git -C /repo worktree remove --force "$wt" >/dev/null 2>&1' EXIT
+(cd "$wt" && git apply "$patch") || { echo "patch does not apply"; exit 9; }
+cd /verif && VERIF_REPO="$wt" ./check "$prop" --no-gate "$@" 2>&1 | grep -E "^(VIOLATION|violation|KNOWN|HARNESS|runs=)" | head -8
 exit ${PIPESTATUS[0]}
